@@ -8,6 +8,7 @@ import (
 	"runtime"
 	"sort"
 	"strings"
+	"sync"
 	"sync/atomic"
 	"testing"
 	"testing/synctest"
@@ -66,6 +67,7 @@ type Exec struct {
 	Points     []Point
 	Choices    []string
 	Diverged   bool
+	Poisoned   bool // this schedule crashed the process in an earlier attempt; skipped
 	StepCapHit bool
 	Hang       string // non-empty when the bubble deadlocked / goroutines leaked
 	Panic      string
@@ -234,9 +236,56 @@ func init() {
 	}()
 }
 
+var (
+	poisonOnce sync.Once
+	poisoned   map[string]bool
+)
+
+func poisonKey(scenario string, prefix []string) string { return scenario + "|" + strings.Join(prefix, " ") }
+
+// loadPoison reads the schedules that crashed the process in an earlier attempt of this shard (engine panic): they are
+// reported by the driver and skipped here so that the rest of the space still gets explored.
+func loadPoison() {
+	poisoned = map[string]bool{}
+	path := os.Getenv("VERIF_POISON")
+	if path == "" {
+		return
+	}
+	b, err := os.ReadFile(path)
+	if err != nil {
+		return
+	}
+	var list []struct {
+		Scenario string   `json:"scenario"`
+		Prefix   []string `json:"prefix"`
+	}
+	if json.Unmarshal(b, &list) == nil {
+		for _, p := range list {
+			poisoned[poisonKey(p.Scenario, p.Prefix)] = true
+		}
+	}
+}
+
+func (e *Explorer) journal(prefix []string) {
+	out := os.Getenv("VERIF_OUT")
+	if out == "" {
+		return
+	}
+	b, _ := json.Marshal(map[string]any{"scenario": e.Scn.Name, "params": e.Scn.Params, "prefix": prefix})
+	_ = os.WriteFile(fmt.Sprintf("%s/%s.%s.%d.journal", out, e.Rep.Property, e.Rep.Part, e.Rep.Shard), b, 0o644)
+}
+
 // RunOnce executes the scenario once following prefix (named choices), then alternative 0 everywhere.
 func (e *Explorer) RunOnce(prefix []string) *Exec {
 	x := &Exec{T: e.T, TickHorizon: time.Hour, MaxTicks: 64, Obs: map[string]any{}}
+	poisonOnce.Do(loadPoison)
+	if poisoned[poisonKey(e.Scn.Name, prefix)] {
+		x.Diverged = true
+		x.Poisoned = true
+		x.W = NewWorld()
+		return x
+	}
+	e.journal(prefix)
 	maxSteps := e.MaxSteps
 	if maxSteps == 0 {
 		maxSteps = 400
@@ -362,6 +411,10 @@ func (e *Explorer) dfs(prefix []string, bound int) {
 		return
 	}
 	x := e.RunOnce(prefix)
+	if x.Poisoned {
+		e.Rep.Cap(e.Scn.Name + ": a schedule that crashed the process was skipped (reported by the driver as engine-panic)")
+		return
+	}
 	if x.Diverged {
 		e.Rep.Divergence()
 		e.Rep.Extra("last_divergence", fmt.Sprintf("%s: %v (prefix %v)", e.Scn.Name, x.Obs["divergence"], prefix))
